@@ -23,6 +23,90 @@ var udpPeer *net.UDPConn
 var udpLS *face.NDNLPLinkService
 var udpTo *net.UDPAddr
 
+// ---------------------------------------------------------------- the UDP listener
+//
+//   new udpl                   the REAL UDPListener on a loopback port                 => ok | skip
+//   first <hex>                <hex> is the FIRST datagram of a new remote endpoint (a fresh socket of the
+//                              harness): the listener makes an on-demand face for it and hands it the
+//                              datagram as its initial frame                          => faces=+<n>
+
+var udpListener *face.UDPListener
+var udpListenAddr *net.UDPAddr
+var udplFaces []face.LinkService
+
+func closeUDPL() {
+	if udpListener != nil {
+		udpListener.Close()
+		udpListener = nil
+	}
+	for _, f := range udplFaces {
+		f.Close()
+	}
+	udplFaces = nil
+}
+
+func newUDPL() string {
+	ndnlog.SetLevel(ndnlog.FatalLevel)
+	closeUDP()
+	closeUDPL()
+	setThreads(2)
+	probe, err := net.ListenUDP("udp4", &net.UDPAddr{IP: net.IPv4(127, 0, 0, 1), Port: 0})
+	if err != nil {
+		return "skip"
+	}
+	port := probe.LocalAddr().(*net.UDPAddr).Port
+	probe.Close()
+	face.UDPUnicastPort = uint16(port)
+	l, err := face.MakeUDPListener(defn.MakeUDPFaceURI(4, "127.0.0.1", uint16(port)))
+	if err != nil {
+		return "skip"
+	}
+	go l.Run() // a panic in the accept loop ends the process
+	udpListener, udpListenAddr = l, &net.UDPAddr{IP: net.IPv4(127, 0, 0, 1), Port: port}
+	// wait until the listener has bound its socket: a plain bind of the same port must fail
+	for i := 0; i < 4000; i++ {
+		t, err := net.ListenUDP("udp4", udpListenAddr)
+		if err != nil {
+			break
+		}
+		t.Close()
+		time.Sleep(500 * time.Microsecond)
+	}
+	return "ok"
+}
+
+func udplFirst(b []byte) string {
+	if udpListener == nil {
+		return "skip"
+	}
+	before := map[uint64]bool{}
+	for _, f := range face.FaceTable.GetAll() {
+		before[f.FaceID()] = true
+	}
+	c, err := net.DialUDP("udp4", nil, udpListenAddr)
+	if err != nil {
+		return "skip"
+	}
+	defer c.Close()
+	if _, err := c.Write(b); err != nil {
+		return "skip"
+	}
+	n := 0
+	deadline := time.Now().Add(2 * time.Second)
+	for n == 0 && time.Now().Before(deadline) {
+		time.Sleep(500 * time.Microsecond)
+		for _, f := range face.FaceTable.GetAll() {
+			if !before[f.FaceID()] {
+				before[f.FaceID()] = true
+				udplFaces = append(udplFaces, f)
+				n++
+			}
+		}
+	}
+	time.Sleep(2 * time.Millisecond) // the initial frame is handled on the listener's goroutine right after
+	return fmt.Sprintf("faces=+%d", n)
+}
+
 func closeUDP() {
 	if udpLS != nil {
 		udpLS.Close()
@@ -92,6 +176,22 @@ func genUDP(g *common.Gen, packets [][]byte) {
 			pkts = append(pkts, p)
 		}
 	}
+	// first datagrams of new endpoints at the real listener: empty, one octet, truncated, garbage, valid
+	{
+		r := g.R.Fork()
+		g.Op("new udpl")
+		g.Stat("udpl-history")
+		firsts := [][]byte{{}, {0x05}, {0x64}, {0x00}, {0xff, 0xff}, simpleInterest("a")[:3], simpleInterest("a"), simpleData("a", []byte("x")),
+			lpFrame(nil, nil, nil, nil, simpleInterest("b"))}
+		for _, f := range firsts {
+			g.Op("first %s", hexOrDash(f))
+			g.Stat("udpl-first")
+		}
+		for k := 0; k < 4; k++ {
+			g.Op("first %s", hexOrDash(common.Pick(r, pkts)))
+			g.Stat("udpl-first")
+		}
+	}
 	// every persistency update (also "the same value"), before / between / after datagrams
 	for _, seq := range [][]int{{-1}, {0}, {1}, {2}, {1, 0}, {0, 1}, {2, 1, 2}} {
 		r := g.R.Fork()
@@ -108,4 +208,11 @@ func genUDP(g *common.Gen, packets [][]byte) {
 			}
 		}
 	}
+}
+
+func hexOrDash(b []byte) string {
+	if len(b) == 0 {
+		return "-"
+	}
+	return common.Hex(b)
 }
